@@ -1344,58 +1344,79 @@ func c04Normalize(c *Ctx, rule string) {
 	if dense == nil {
 		return
 	}
-	f := c.P.DeclaredMethod(dense, "normalize")
-	if f == nil {
-		return // no such helper: its obligations are the add paths' (C04-D1/D2)
-	}
-	paths, _ := exec(c, f, nil, 1)
-	bad := ""
-	for _, p := range paths {
-		if len(p.RetT) != 1 {
-			continue
+	types_ := []*types.Named{dense}
+	if cts, err := collapsingTypes(c); err == "" {
+		for _, ct := range cts {
+			types_ = append(types_, ct.t)
 		}
-		extSeq := -1
-		for _, e := range p.Calls() {
-			if isMethodCall(e.Call, "extendRange") && len(e.Call.Args) == 3 {
-				extSeq = e.Seq
-				if !(e.Call.Args[0].isParam(0) && e.Call.Args[1].isParam(1) && e.Call.Args[2].isParam(1)) {
-					bad = "the range is extended to " + e.Call.Key() + ", not to the index"
+	}
+	for _, t := range types_ {
+		f := c.P.DeclaredMethod(t, "normalize")
+		if f == nil {
+			continue // no such helper: its obligations are the add paths' (C04-D1/D2)
+		}
+		// fields of the dense part, seen directly or through the embedded struct
+		isF := func(x *Term, fld string) bool {
+			x = stripVers(x)
+			if x.Op != "field" || x.Sym != fld || len(x.Args) != 1 {
+				return false
+			}
+			o := stripVers(x.Args[0])
+			return o.isParam(0) || o.Op == "field" && len(o.Args) == 1 && stripVers(o.Args[0]).isParam(0)
+		}
+		paths, _ := exec(c, f, nil, 1)
+		bad := ""
+		nSlots := 0
+		for _, p := range paths {
+			if len(p.RetT) != 1 {
+				continue
+			}
+			r := stripVers(p.RetT[0])
+			if !(r.isBin("-") && r.Args[0].isParam(1)) {
+				continue // an edge slot of a collapsing store (C05-D3), not the slot of the index
+			}
+			nSlots++
+			if !isF(r.Args[1], dr.offset) {
+				bad = firstNonEmpty(bad, "the slot is "+r.Key()+", not index − offset")
+			}
+			extended := false
+			for _, e := range p.Calls() {
+				if isMethodCall(e.Call, "extendRange") && len(e.Call.Args) == 3 {
+					extended = true
+					if !(e.Call.Args[0].isParam(0) && e.Call.Args[1].isParam(1) && e.Call.Args[2].isParam(1)) {
+						bad = firstNonEmpty(bad, "the range is extended to "+e.Call.Key()+", not to the index")
+					}
 				}
 			}
-		}
-		r := stripVers(p.RetT[0])
-		if !(r.isBin("-") && r.Args[0].isParam(1) && isRecvField(r.Args[1], dr.offset)) {
-			bad = firstNonEmpty(bad, "the slot is "+r.Key()+", not index − offset")
-		}
-		if extSeq < 0 {
+			if extended {
+				continue
+			}
 			lo, hi := false, false
 			for _, cd := range p.Conds {
-				t := cd.Term
-				if t.isBin("<") && !cd.Taken && t.Args[0].isParam(1) && isRecvField(t.Args[1], dr.minIndex) {
-					lo = true // !(index < min)
+				tm := cd.Term
+				if len(tm.Args) != 2 {
+					continue
 				}
-				if t.isBin("<") && !cd.Taken && isRecvField(t.Args[0], dr.maxIndex) && t.Args[1].isParam(1) {
-					hi = true // !(max < index)
-				}
-				if t.isBin("<=") && cd.Taken && isRecvField(t.Args[0], dr.minIndex) && t.Args[1].isParam(1) {
+				x, y := tm.Args[0], tm.Args[1]
+				switch {
+				case tm.isBin("<") && !cd.Taken && x.isParam(1) && isF(y, dr.minIndex), // !(index < min)
+					tm.isBin("<=") && cd.Taken && isF(x, dr.minIndex) && y.isParam(1), // min ≤ index
+					tm.isBin("<=") && !cd.Taken && x.isParam(1) && isF(y, dr.minIndex), // !(index ≤ min)
+					tm.isBin("<") && cd.Taken && isF(x, dr.minIndex) && y.isParam(1): // min < index
 					lo = true
-				}
-				if t.isBin("<=") && !cd.Taken && t.Args[0].isParam(1) && isRecvField(t.Args[1], dr.minIndex) {
-					lo = true // !(index ≤ min): strictly inside, a fortiori
-				}
-				if t.isBin("<=") && !cd.Taken && isRecvField(t.Args[0], dr.maxIndex) && t.Args[1].isParam(1) {
-					hi = true // !(max ≤ index)
-				}
-				if t.isBin("<=") && cd.Taken && t.Args[0].isParam(1) && isRecvField(t.Args[1], dr.maxIndex) {
+				case tm.isBin("<") && !cd.Taken && isF(x, dr.maxIndex) && y.isParam(1), // !(max < index)
+					tm.isBin("<=") && cd.Taken && x.isParam(1) && isF(y, dr.maxIndex), // index ≤ max
+					tm.isBin("<=") && !cd.Taken && isF(x, dr.maxIndex) && y.isParam(1), // !(max ≤ index)
+					tm.isBin("<") && cd.Taken && x.isParam(1) && isF(y, dr.maxIndex): // index < max
 					hi = true
 				}
 			}
 			if !lo || !hi {
-				bad = firstNonEmpty(bad, fmt.Sprintf("a slot is handed out without extending the range although min ≤ index ≤ max is not established (lower=%v upper=%v)", lo, hi))
+				bad = firstNonEmpty(bad, fmt.Sprintf("a slot is handed out without extending the range although min ≤ index ≤ max is not established (lower=%v upper=%v) on [%s]", lo, hi, pathSig(p)))
 			}
 		}
+		c.R.check(bad == "" && nSlots > 0, rule, t.Obj().Name()+".normalize/slot-inside-window", shortFn(f), c.fpos(f), "slot = index − offset, handed out only for an index inside the window or after extending the range to it", firstNonEmpty(bad, fmt.Sprintf("%d path(s) handing out the slot of the index", nSlots)))
 	}
-	c.R.check(bad == "" && len(paths) > 0, rule, "DenseStore.normalize/slot-inside-window", shortFn(f), c.fpos(f), "slot = index − offset, handed out only for an index inside the window or after extending the range to it", firstNonEmpty(bad, fmt.Sprintf("%d path(s)", len(paths))))
 }
 
 // c04SparseFolds: the sparse store answers its extremes and its total by folding over the map. MaxIndex / MinIndex:
